@@ -363,13 +363,22 @@ func (e StdEng) denseConcat(a DenseTensor, axis int, Ts []DenseTensor) (DenseTen
 		var vmask, Tmask []bool
 		vmask = v.mask
 		v.mask = nil
+		var src DenseTensor = T
 		if mt, ok := T.(MaskedTensor); ok && mt.IsMasked() {
 			Tmask = mt.Mask()
-			mt.SetMask(nil)
-
+			// the elements are assigned without the mask. The operand is not ours to change (it used to be left without
+			// its mask, and may be read by someone else meanwhile): an unmasked header over the same storage is assigned
+			if d, ok := T.(*Dense); ok {
+				sc := d.ShallowClone()
+				sc.mask = nil
+				src = sc
+			} else {
+				mt.SetMask(nil)
+				defer mt.SetMask(Tmask)
+			}
 		}
 
-		if err = assignArray(v, T); err != nil {
+		if err = assignArray(v, src); err != nil {
 			return nil, errors.Wrap(err, "Unable to assignArray in denseConcat")
 		}
 		// if it's a masked tensor, we copy the mask as well
